@@ -171,16 +171,27 @@ def _same(got, ref, rtol=1e-9, atol=1e-8):
 
 
 def make_W(d, seed):
+    """A well-conditioned whitening-like matrix, deliberately neither symmetric nor exactly triangular."""
     rs = np.random.RandomState(seed)
-    return np.linalg.inv(np.linalg.cholesky(np.cov(rs.randn(4 * d + 4, d) @ (rs.randn(d, d) + 1.5 * np.eye(d)), rowvar=False) + 0.1 * np.eye(d))) \
-        + 0.05 * rs.randn(d, d)        # deliberately not symmetric / not exactly triangular
+    while True:
+        W = np.linalg.inv(np.linalg.cholesky(np.cov(rs.randn(4 * d + 4, d) @ (rs.randn(d, d) + 1.5 * np.eye(d)), rowvar=False)
+                                             + 0.1 * np.eye(d))) + 0.05 * rs.randn(d, d)
+        if np.linalg.cond(W) < 50:
+            return W
 
 
-def check_lik(ctx, variant, ssx, ssy, got, W=None, penalty=None, gamma=None, where='direct'):
+def check_lik(ctx, variant, ssx, ssy, got, W=None, penalty=None, gamma=None, where='direct', once=None):
     """Compare one observed likelihood value with its reference. Raises Violation."""
     n, d = ssx.shape
     wit = {'variant': variant, 'where': where, 'n': n, 'd': d, 'ssy': np.asarray(ssy).ravel(), 'elfi': got,
            'penalty': penalty, 'gamma': gamma, 'ssx_head': ssx[:3]}
+    if variant != 'go':
+        # the statement is about non-singular covariances: skip (and count) what scipy itself refuses
+        try:
+            ref_std(ssx, ssy, W=W)
+        except np.linalg.LinAlgError:
+            ctx.event('lik_singular_covariance_skipped')
+            return
     if variant in ('std', 'whiten'):
         ref = ref_std(ssx, ssy, W=W)
         ok = _same(got, ref)
@@ -195,11 +206,16 @@ def check_lik(ctx, variant, ssx, ssy, got, W=None, penalty=None, gamma=None, whe
         if not pd:
             ctx.event('lik_go_indefinite_checked')
             if not (got == -np.inf):
+                # reported without aborting the case, so that the remaining checks of the case (the whole
+                # Metropolis-Hastings replay of a run) are still made; at most once per case
                 wit['ref'] = ref
-                raise Violation('ghurye-olkin-indefinite-psi',
-                                'Ghurye-Olkin log-likelihood is %r where the published estimator is zero (log = -inf): '
-                                'M - (y-mu)(y-mu)^T/(1-1/n) is not positive definite (observed summaries far from the '
-                                'simulated ones); d=%d n=%d' % (got, d, n), wit)
+                if once is None or not once.get('go_indef'):
+                    ctx.violation('ghurye-olkin-indefinite-psi',
+                                  'Ghurye-Olkin log-likelihood is %r where the published estimator is zero (log = -inf): '
+                                  'M - (y-mu)(y-mu)^T/(1-1/n) is not positive definite (observed summaries far from the '
+                                  'simulated ones); d=%d n=%d' % (got, d, n), wit)
+                if once is not None:
+                    once['go_indef'] = True
             return
         ok = _same(got, ref)
     else:
@@ -313,6 +329,7 @@ def gen_cases(ctx):
 def run_lik(ctx, case):
     from elfi.methods.bsl import pdf_methods as pm
     rs = np.random.RandomState(case['seed'])
+    once = {}
     for rep in range(case['reps']):
         d = int(rs.randint(1, 6))
         n = int(rs.randint(d + 5, 121))
@@ -326,7 +343,7 @@ def run_lik(ctx, case):
             pen = float(rs.uniform(0, 1))
             check_lik(ctx, 'warton', ssx, ssy, float(np.squeeze(pm.gaussian_syn_likelihood(ssx.copy(), shaped, shrinkage='warton', penalty=pen))),
                       penalty=pen)
-            check_lik(ctx, 'go', ssx, ssy, float(np.squeeze(pm.gaussian_syn_likelihood_ghurye_olkin(ssx.copy(), shaped))))
+            check_lik(ctx, 'go', ssx, ssy, float(np.squeeze(pm.gaussian_syn_likelihood_ghurye_olkin(ssx.copy(), shaped))), once=once)
             if d >= 2:
                 W = make_W(d, int(rs.randint(0, 2 ** 31 - 1)))
                 check_lik(ctx, 'whiten', ssx, ssy, float(np.squeeze(pm.gaussian_syn_likelihood(ssx.copy(), shaped, whitening=W))), W=W)
@@ -500,8 +517,10 @@ def run_mh(ctx, case):
                            np.inf if case['bounds'][pos[n]][1] is None else case['bounds'][pos[n]][1]] for n in order], dtype=float)
     # start: a prior draw (harness side) strictly inside the bounds
     p0 = None
-    for _ in range(200):
+    for attempt in range(200):
         cand = prior_draw(case, rs)[0]
+        if attempt < 20 and case['seed'] % 10 < 7:       # mostly: near the parameters that generated the observation
+            cand = truth[0] + 0.2 * rs.randn(k)
         cand = np.array([cand[pos[n]] for n in order])
         inside = bound is None or all(bound[i, 0] + 1e-3 < cand[i] < bound[i, 1] - 1e-3 for i in range(k))
         if inside and np.isfinite(ref_logprior(case, order, cand)):
@@ -535,8 +554,20 @@ def run_mh(ctx, case):
         kwargs['logit_transform_bound'] = [tuple(r) for r in bound.tolist()]
     if misspec:
         kwargs.update(tau=case['tau'], w=case['w'])
-    res = bsl.sample(N, sigma_proposals=Sigma.copy(), params0=p0.tolist(), param_names=list(order) if case['perm_names'] else None,
-                     burn_in=case['burn_in'], bar=False, **kwargs)
+    once = {}
+    try:
+        res = bsl.sample(N, sigma_proposals=Sigma.copy(), params0=p0.tolist(), param_names=list(order) if case['perm_names'] else None,
+                         burn_in=case['burn_in'], bar=False, **kwargs)
+    except RuntimeError as ex:
+        if 'initialisation round' not in str(ex):
+            raise
+        # BSL refuses to start from a point whose likelihood estimate is not finite: legitimate when the
+        # reference agrees that it is not finite (checked), then the run is outside the domain
+        liks = [e for e in LOG if e[0] == 'lik']
+        del LOG[:]
+        if liks:
+            check_lik(ctx, variant, liks[-1][1], liks[-1][2], liks[-1][4], W=W, penalty=pen, gamma=liks[-1][3], where='initial round')
+        raise Skip('likelihood estimate not finite at the start point')
     ev = list(LOG)
     del LOG[:]
 
@@ -581,7 +612,7 @@ def run_mh(ctx, case):
         _, ssx, y, gamma, val = e
         if ssx.shape != (case['n_sim_round'], d):
             raise Violation('summary-matrix-shape', 'likelihood received a %s matrix, expected (%d, %d)' % (ssx.shape, case['n_sim_round'], d))
-        check_lik(ctx, variant, ssx, y, val, W=W, penalty=pen, gamma=gamma, where=what)
+        check_lik(ctx, variant, ssx, y, val, W=W, penalty=pen, gamma=gamma, where=what, once=once)
 
     # ---- replay
     if not np.allclose(chain[0], p0, rtol=0, atol=0):
